@@ -17,7 +17,7 @@ RULE = ("random shots (all tables, look +-45 deg, cant, twist right/left/none, d
         "is non-zero or the twist is non-zero with dimensions present")
 MUST_OBSERVE = ["contract_evaluations", "rows_contract_checked", "rows_api_checked", "rows_x0", "rows_event",
                 "rows_terminal_rangeerror", "shots_twist_right", "shots_twist_left", "shots_twist_none",
-                "shots_no_dimensions", "shots_inclined", "spin_drift_rows_nonzero", "twin_runs", "mach_local_checks"]
+                "shots_no_dimensions", "shots_inclined", "spin_drift_rows_nonzero", "twin_runs", "mach_local_checks", "shots_powder_sensitivity_on"]
 ASSUMPTIONS = ["energy accepted between w v^2/450400 (documented constant) and the exact w v^2/(2*7000*32.17405)",
                "spin-drift clause not applied under Vacuum (its atmospheric correction 29.92/P is undefined at P = 0)",
                "Mach vs local speed of sound: 5e-6 (terminal rows reuse the previous step's speed of sound) plus the 30-ft "
@@ -167,6 +167,10 @@ def check_case(ctx, case):
     # ---- API level, with the Shot in hand
     tw = spec.get("twist_in", 0.0)
     dims = bool(spec.get("diameter_in")) and bool(spec.get("length_in"))
+    if spec.get("powder") and spec["powder"]["use"]:
+        ctx.count("shots_powder_sensitivity_on")
+        if rows and abs((rows[0].velocity >> Velocity.FPS) - mv) > 1e-9 * mv:
+            ctx.violation("launch-speed", f"first row speed {rows[0].velocity >> Velocity.FPS!r} != velocity for the powder temperature {mv!r}", case)
     ctx.count("shots_twist_right" if tw > 0 else "shots_twist_left" if tw < 0 else "shots_twist_none")
     if not dims:
         ctx.count("shots_no_dimensions")
@@ -236,6 +240,10 @@ def gen_case(rng):
     s = gen.shot(rng, vacuum_ok=True, custom=0.1)
     if rng.random() < 0.5 and s.get("diameter_in"):
         s["twist_in"] = rng.choice([1, -1]) * round(rng.uniform(6, 14), 1)
+    if rng.random() < 0.3:
+        s["powder"] = {"temp_c": round(rng.uniform(-10, 30), 1), "modifier": round(rng.uniform(-0.04, 0.04), 4), "use": rng.random() < 0.8}
+        if s["atmo"]["kind"] == "station" and rng.random() < 0.5:
+            s["atmo"]["powder_t_c"] = round(rng.uniform(-30, 45), 1)
     kind = rng.choice(["plain", "extra", "extra", "time", "limit"])
     req = {"range_ft": rng.choice([300.0, 900.0, 1500.0, 3000.0]), "step_ft": rng.choice([30.0, 75.0, 100.0, 300.0]),
            "extra": kind in ("extra", "limit"), "time_step": rng.choice([0.01, 0.05]) if kind == "time" else 0.0}
